@@ -28,7 +28,7 @@ func checkC06Required(c *Ctx, n int) {
 	p.Required, p.PosArgs, p.SubOpt = 0.5, 0.7, 1
 	p.MaxCmdDepth = 2
 	p.Handlers, p.Exec = false, false
-	p.OnlyTypes = []string{"str", "int", "bool", "Lstr"}
+	p.OnlyTypes = []string{"str", "int", "bool", "Lstr", "str", "int", "bool", "F-", "Fe", "Fint", "Fstr!"}
 	p.OptsMask = flags.PrintErrors
 	r := c.Rng
 	for i := 0; i < n; i++ {
@@ -73,11 +73,11 @@ func checkC06Required(c *Ctx, n int) {
 					continue
 				}
 				switch real.optCode(cd.o) {
-				case "bool":
+				case "bool", "F-", "Fe":
 					argv = append(argv, cd.sp)
-				case "int":
+				case "int", "Fint":
 					argv = append(argv, cd.sp+"=7")
-				case "str", "Lstr":
+				case "str", "Lstr", "Fstr!":
 					argv = append(argv, cd.sp+"=v")
 				default:
 					continue
